@@ -87,7 +87,7 @@ Definition edge_incs (fixed : bool) (f : kfunc) (cur : Z) (t : kterm) (b k : Z) 
   | KBr d args => seg d 0 (k_nargs f d) (map KO args) cur b k
   | KCondBr c tb targs eb eargs =>
       if fixed && (tb =? eb) then
-        let os := map (fun p => KSel c (fst p) (snd p)) (combine targs eargs) in
+        let os := map (fun p => k_sel c (fst p) (snd p)) (combine targs eargs) in
         seg tb 0 (k_nargs f tb) os cur b k ++ seg tb 0 (k_nargs f tb) os cur b k
       else seg tb 0 (k_nargs f tb) (map KO targs) cur b k ++ seg eb 0 (k_nargs f eb) (map KO eargs) cur b k
   end.
@@ -181,13 +181,19 @@ Proof.
 Qed.
 
 Lemma nth_map_sel c (ta ea : list iopd) k : List.length ea = List.length ta -> (k < List.length ta)%nat ->
-  nth k (map (fun p => KSel c (fst p) (snd p)) (combine ta ea)) kdo =
-  KSel c (nth k ta (IVar 0)) (nth k ea (IVar 0)).
+  nth k (map (fun p => k_sel c (fst p) (snd p)) (combine ta ea)) kdo =
+  k_sel c (nth k ta (IVar 0)) (nth k ea (IVar 0)).
 Proof.
   intros Hl Hk.
-  rewrite (nth_indep _ kdo ((fun p => KSel c (fst p) (snd p)) (IVar 0, IVar 0)))
+  rewrite (nth_indep _ kdo ((fun p => k_sel c (fst p) (snd p)) (IVar 0, IVar 0)))
     by (rewrite map_length, combine_length; lia).
-  rewrite (map_nth (fun p => KSel c (fst p) (snd p))). rewrite combine_nth by (symmetry; exact Hl). reflexivity.
+  rewrite (map_nth (fun p => k_sel c (fst p) (snd p))). rewrite combine_nth by (symmetry; exact Hl). reflexivity.
+Qed.
+Lemma iopd_eqb_true x y : iopd_eqb x y = true -> x = y.
+Proof.
+  destruct x, y; cbn; try discriminate.
+  - intros H; apply Z.eqb_eq in H; subst; reflexivity.
+  - intros H; apply andb_prop in H as [H1 H2]. apply Z.eqb_eq in H1, H2. subst; reflexivity.
 Qed.
 
 (* ---------- the two machines ---------- *)
@@ -423,13 +429,14 @@ Section Kernel.
         + (* repaired code: the same select twice *)
           assert (Hl2 : List.length eargs = List.length targs) by lia.
           assert (Hk' : (k < Nat.min (k_nargs f tb)
-                              (List.length (map (fun p0 => KSel c (fst p0) (snd p0)) (combine targs eargs))))%nat).
+                              (List.length (map (fun p0 => k_sel c (fst p0) (snd p0)) (combine targs eargs))))%nat).
           { rewrite map_length, combine_length, Hl2, Nat.min_id, <- Htlen, Nat.min_id.
             subst args; destruct (Z.odd cv); lia. }
           rewrite !seg_hit by exact Hk'. cbn [app filter forallb fst snd]. rewrite kopd_eqb_refl. cbn [andb].
           rewrite nth_map_sel by (try exact Hl2; subst args; destruct (Z.odd cv); lia).
-          cbn [eval_k]. rewrite Hc.
-          subst args; destruct (Z.odd cv); reflexivity.
+          unfold k_sel. destruct (iopd_eqb (nth k targs (IVar 0)) (nth k eargs (IVar 0))) eqn:Ek.
+          * apply iopd_eqb_true in Ek. cbn [eval_k]. subst args; destruct (Z.odd cv); [reflexivity | rewrite Ek; reflexivity].
+          * cbn [eval_k]. rewrite Hc. subst args; destruct (Z.odd cv); reflexivity.
         + (* unrepaired code: two entries, equal because the operands are *)
           assert (Eargs : targs = eargs) by (eapply (Hnc eq_refl); [eapply nth_error_In; exact Hn | exact Ht | reflexivity]).
           subst eargs. assert (Ea : args = targs) by (subst args; destruct (Z.odd cv); reflexivity). rewrite Ea in *.
